@@ -9,7 +9,7 @@ from .. import oracle as o
 ID = 'C16'
 RULE = ('the same deterministic case file is executed by harness binaries compiled for {baseline, +sse4.1, +avx, +avx2}; every output must equal the specification model and be '
         'byte-identical across builds; SHA-224/256 one-shot at every input offset 0..31 x 0..20 blocks x tails {0,1,63}, contexts preloaded with prefixes of every length mod 64 '
-        'then fed multi-block updates, BLAKE2b/2s keyed/unkeyed 0..5 blocks with every tail class, contexts embedded at offset 8 of a repr(C) struct inside a Vec, HMAC/PBKDF2/'
+        'then fed multi-block updates, BLAKE2b/2s keyed/unkeyed 0..5 blocks with every tail class, contexts embedded at offset 8 of a repr(C) struct inside a Vec, BLAKE2 byte counters preset next to 2^32/2^64/2^128 (hook), HMAC/PBKDF2/'
         'scrypt/Argon2 samples, and the public ChaCha contexts (SSE2 engine) against the portable engine for every key/nonce length; memcheck and ASan run the +avx2 build; '
         'distinct = (op family, variant, offset, block count, tail) per build')
 ASSUMPTIONS = ['host CPU executes SSE4.1/AVX/AVX2 (checked at run time; a configuration the CPU cannot run is reported, not judged)', 'spec models of C01-C11']
@@ -52,6 +52,14 @@ def gen(tier, seed):
     for v in ('blake2b_512', 'blake2b_256', 'blake2s_256', 'blake2s_224', 'sha256', 'sha224', 'sha512', 'sha1', 'sha3_256', 'ripemd160'):
         for _ in range(10):
             yield 'hash %s %s #oneshot-%s' % (v, rng.data(rng.rng(0, 3000)), v)
+    for v, sizes in (('sha256', (64 * 100, 64 * 257 + 5, 65536, 1 << 20)), ('sha224', (64 * 33 + 1,)), ('blake2b_512', (128 * 100 + 3, 1 << 20)), ('blake2s_256', (64 * 100 + 3, 1 << 20))):
+        for n in sizes:
+            yield 'hash %s %s #oneshot-large-%s' % (v, rng.data(n), v)
+    # BLAKE2 byte counters next to their word boundaries (hook preset): the vectorised compressions take the counter words too
+    from .c20 import counter_cases
+    for l in counter_cases(rng, thorough):
+        if thorough or rng.below(3) == 0:
+            yield l
     # users of the vectorised primitives
     for _ in range(60 if thorough else 15):
         yield 'mac hmac:sha256 %s i.0.%s i.0.%s r.0 #hmac-sha256' % (rng.data(rng.choice([0, 20, 64, 65, 200])), rng.data(rng.rng(0, 1500)), rng.data(rng.rng(0, 700)))
@@ -87,6 +95,9 @@ class _Mod:
 
     @staticmethod
     def check(line, toks):
+        if '#counter/' in line:
+            from .c20 import check_counter
+            return [('C16:spec:blake2-counter', m) for s, m in check_counter(line, toks)]
         return [('C16:spec:' + s.split(':', 1)[1] if ':' in s else s, m) for s, m in check_any(line, toks)]
 
     @staticmethod
